@@ -10,6 +10,7 @@ import HtmlVerif.Props.SrcC10
 import HtmlVerif.Props.SrcC14
 import HtmlVerif.Props.SrcRender
 import HtmlVerif.Props.C09
+import HtmlVerif.Props.SrcNeutralise
 
 set_option linter.unusedVariables false
 set_option linter.unusedSimpArgs false
@@ -432,4 +433,93 @@ theorem src_textdoc_render_objC13 (h : HTMLTextDocument_render_available = true)
     asTags _ _ ph (fun d _ => rfl) (fun d _ => ⟨_, rfl, rfl⟩) (fun d _ => ?_) hplain fuel hf
   cases lp <;> cases iv <;> simp [pyAsHtmlTagsC13, embDepTagsC13, fieldGet?, lookupTagsC13, sameArgC13, optStrC13]
 
+/-- `TagList(x)` for a TagList `x` of nodes: a TagList with the same nodes (through the translated `TagList.__init__`) -/
+theorem init_taglist1C13 (hi : TagList_init_available = true) (htc : tagchilds_to_tagnodes_available = true)
+    (hfl : util_flatten_available = true) (hfr : util_flatten_recurse_available = true) (hitn : is_tag_node_available = true)
+    (G : Globals) (ks : Nodes) (f : Nat) (hf : 4 < f) :
+    TagList_init G f (PVal.obj "TagList" []) (PVal.tuple [tagListOf (embNodes ks)]) = .ok (tagListOf (embNodes ks)) := by
+  have := src_TagList_init hi htc hfl hfr hitn G [.taglist (nodeArgsC13 ks)] (by simp [argRep, argsRep_nodeArgsC13]) f
+    (by simp [Args.ofList, argsFdepth, argFdepth, argsFdepth_nodeArgsC13]; omega)
+  have e : TL.init [.taglist (nodeArgsC13 ks)] = .ok (tlOfC13 ks.toList) := by
+    simp [TL.init, chTagchildsToTagnodes, Arg.isStr, Arg.iter, flatten, Args.ofList, Args.flattenInto, Arg.flattenItem,
+      flattenInto_nodeArgsC13, convertLoop_nodesC13, tlOfC13]
+  simpa [e, embRes, embTL_tlOfC13, embA, embAs_nodeArgsC13, tagListOf, embNodes_toList] using this
+
+/-- `HTMLDependency.serialize_to_script_json(indent)` as the source has it = `serNode` — the `<script type="application/json"
+    data-html-dependency="">` element whose text is the neutralised JSON of the record — for every dependency object with the
+    attributes `__init__` leaves (`embDepObjC10b`; `head` None or a TagList of any nodes), `indent` None or a natural number:
+    the `res` dict in source order, `str(version)`, `head` rendered by the translated `TagList.__init__` +
+    `get_html_string` (RuntimeError iff an un-expanded tagifiable object is reached), `json.dumps` (= `jsonPrint`:
+    Py/PrimC13.lean), `.replace("</", "<\\/")` (= `neutralise`: `src_neutralise`), `Tag("script", …, type=…,
+    data_html_dependency=True)` (`pyMkTagC13`: `Tag.__init__` is not translated). -/
+theorem src_serializeC13 (h : HTMLDependency_serialize_available = true)
+    (hi : TagList_init_available = true) (htc : tagchilds_to_tagnodes_available = true)
+    (hfl : util_flatten_available = true) (hfr : util_flatten_recurse_available = true) (hitn : is_tag_node_available = true)
+    (hg1 : Tag_get_html_string_available = true) (hg2 : TagList_get_html_string_available = true)
+    (hn : normalize_text_available = true) (he : html_escape_available = true) (hs : HTML_as_string_available = true)
+    (cfg : Cfg) (ht : keysPlain cfg.textTbl = true) (ha : keysPlain cfg.attrTbl = true)
+    (cls : String) (info : DepInfo) (hasHead : Bool) (head : Nodes) (ind : Option Nat)
+    (fuel : Nat) (hf : 2 * kidsDepth head + 6 ≤ fuel) :
+    HTMLDependency_serialize (globalsOf cfg) fuel
+        (embDepObjC10b cls (sourceVC13 info.source).emb info (if hasHead then tagListOf (embNodes head) else PVal.none))
+        (optNatC13 ind)
+      = if hasHead && head.hasTobjKids then .error .runtimeError
+        else .ok (embNode (serNode ind (sdepOfNode cfg info hasHead head))) := by
+  first
+  | exact absurd h (by decide)
+  | skip
+  all_goals (
+    obtain ⟨f, rfl⟩ : ∃ f, fuel = f + 1 := ⟨fuel - 1, by omega⟩
+    rw [HTMLDependency_serialize]
+    have g : ∀ (k : String) (v : PVal) (src hd : PVal),
+        fieldGet? k [("name", PVal.str info.name), ("version", versionObjC10b info.vrank info.version), ("source", src),
+          ("script", embDictsC10b info.script), ("stylesheet", embDictsC10b info.stylesheet), ("meta", embDictsC10b info.metas),
+          ("all_files", PVal.bool info.allFiles), ("head", hd)] = some v →
+        pyGetAttr (embDepObjC10b cls src info hd) k = .ok v := fun k v src hd hk => pyGetAttr_objC10b _ _ _ _ hk
+    have hcls : ∀ l, pyClassOf (tagListOf l) = "TagList" := fun _ => rfl
+    simp only [g "name" _ _ _ rfl, g "version" _ _ _ rfl, g "source" _ _ _ rfl, g "script" _ _ _ rfl, g "stylesheet" _ _ _ rfl,
+      g "meta" _ _ _ rfl, g "all_files" _ _ _ rfl, g "head" _ _ _ rfl, ok_bind, pure_eq_ok, truthy_bool]
+    have hv : pyStrC13 (versionObjC10b info.vrank info.version) = .ok (.str info.version) := rfl
+    -- `json.dumps`, the neutralisation and the `Tag(…)` construction, for either kind of head
+    have fin : ∀ hd : Option Str,
+        (pyJsonDumpsC13
+            (PVal.dict
+              [(['n', 'a', 'm', 'e'], PVal.str info.name), (['v', 'e', 'r', 's', 'i', 'o', 'n'], PVal.str info.version),
+                (['s', 'o', 'u', 'r', 'c', 'e'], (sourceVC13 info.source).emb),
+                (['s', 'c', 'r', 'i', 'p', 't'], embDictsC10b info.script),
+                (['s', 't', 'y', 'l', 'e', 's', 'h', 'e', 'e', 't'], embDictsC10b info.stylesheet),
+                (['m', 'e', 't', 'a'], embDictsC10b info.metas),
+                (['a', 'l', 'l', '_', 'f', 'i', 'l', 'e', 's'], PVal.bool info.allFiles),
+                (['h', 'e', 'a', 'd'], optStrC13 hd)])
+            (optNatC13 ind) >>= fun j =>
+          pyReplaceAll j (PVal.str ['<', '/']) (PVal.str ['<', Char.ofNat 92, '/']) >>= fun b =>
+          pyMkTagC13 (PVal.str ['s', 'c', 'r', 'i', 'p', 't']) (PVal.tuple [b])
+            (PVal.dict
+              [(['t', 'y', 'p', 'e'],
+                  PVal.str ['a', 'p', 'p', 'l', 'i', 'c', 'a', 't', 'i', 'o', 'n', '/', 'j', 's', 'o', 'n']),
+                (['d', 'a', 't', 'a', '_', 'h', 't', 'm', 'l', '_', 'd', 'e', 'p', 'e', 'n', 'd', 'e', 'n', 'c', 'y'],
+                  PVal.bool true)]))
+          = .ok (embNode (serNode ind { info := info, head := hd })) := by
+      intro hd
+      have jd := jsonDumps_recordC13 info hd ind
+      simp only [kName, kVersion, kSource, kScript, kStylesheet, kMeta, kAllFiles, kHead] at jd
+      have hn' := src_neutralise (jsonPrint ind (depToJson { info := info, head := hd }))
+      rw [jd]
+      simp only [ok_bind]
+      rw [show (PVal.str ['<', Char.ofNat 92, '/']) = PVal.str ['<', '\\', '/'] from rfl, hn']
+      rfl
+    cases hasHead
+    · simp only [Bool.false_eq_true, if_false, isNone, Bool.not_true, hv, ok_bind, Bool.false_and]
+      exact fin none
+    · have hini := init_taglist1C13 hi htc hfl hfr hitn (globalsOf cfg) head f (by omega)
+      have hrl : TagList_get_html_string (globalsOf cfg) f (tagListOf (embNodes head)) (PVal.int 0) (PVal.str [Char.ofNat 10])
+          (PVal.bool true) (PVal.bool true)
+          = if head.hasTobjKids then .error .runtimeError else .ok (.str (renderList cfg head 0 ['\n'] true true)) :=
+        src_render_list hg1 hg2 hn he hs cfg ht ha head f (by omega) 0 ['\n'] true true
+      have hnn : isNone (tagListOf (embNodes head)) = false := rfl
+      simp only [if_true, hnn, Bool.not_false, hv, ok_bind, hini, hcls, hrl, Bool.true_and]
+      cases head.hasTobjKids
+      · simp only [Bool.false_eq_true, if_false, ok_bind]
+        exact fin (some (renderList cfg head 0 ['\n'] true true))
+      · simp only [if_true, error_bind])
 end HtmlVerif.SrcTie
